@@ -57,7 +57,7 @@ func (s *SchedSpec) run(prefix []vsched.Choice) schedExec {
 	x := schedExec{res: res}
 	if vsched.RaceBuild {
 		for _, r := range DrainRaceReports() {
-			x.races = append(x.races, Violation{Assert: "race-free", Witness: r.Pair, Detail: r.Text, Once: true})
+			x.races = append(x.races, Violation{Assert: "race-free", Witness: r.Pair, Alt: r.Alt, Detail: r.Text, Once: true})
 		}
 	}
 	if res.Status == vsched.StOK {
